@@ -337,6 +337,12 @@ func ownedWriteAnalysis(c *core.Ctx, seeds map[*types.Named]bool) (agg map[strin
 			ok2 = fr.IsFreshAt(w.Base, w.Instr)
 		}
 		if !ok2 {
+			// the write is in an unexported step of a constructor (ret.appendMount(…)): it is as good as inline when every
+			// call of the step passes an object that is fresh and unpublished in the caller, with the written field's
+			// container fresh as well
+			ok2 = writeThroughFreshArgument(c, fresh, w)
+		}
+		if !ok2 {
 			what := w.Kind
 			if w.Field != nil {
 				what += " ." + w.Field.Name()
@@ -351,6 +357,88 @@ func ownedWriteAnalysis(c *core.Ctx, seeds map[*types.Named]bool) (agg map[strin
 	}
 	sort.Strings(keys)
 	return
+}
+
+// writeThroughFreshArgument: w writes through a parameter of an unexported function whose every call site (all static, at
+// least one) passes a tracked fresh object; for writes into a container held in a field, that field's referent is fresh too.
+func writeThroughFreshArgument(c *core.Ctx, fresh *core.Fresh, w core.WriteSite) bool {
+	fn := w.Fn
+	if fn == nil || fn.Parent() != nil || fn.Object() == nil || fn.Object().Exported() {
+		return false
+	}
+	// the parameter the written memory is reached from, and the field of it that holds the container (-1: the object itself)
+	var param *ssa.Parameter
+	field := -1
+	v := w.Base
+	for d := 0; d < 8 && v != nil; d++ {
+		switch x := v.(type) {
+		case *ssa.Parameter:
+			param = x
+			v = nil
+		case *ssa.FieldAddr:
+			if _, ok := x.X.(*ssa.Parameter); ok {
+				field = x.Field
+			}
+			v = x.X
+		case *ssa.IndexAddr:
+			v = x.X
+		case *ssa.UnOp:
+			v = x.X
+		case *ssa.Slice:
+			v = x.X
+		default:
+			v = nil
+		}
+	}
+	if param == nil {
+		return false
+	}
+	idx := -1
+	for i, q := range fn.Params {
+		if q == param {
+			idx = i
+		}
+	}
+	if idx < 0 {
+		return false
+	}
+	if w.Kind == "field-store" {
+		field = -1 // assigning the field itself needs only the object to be fresh
+	}
+	sites := 0
+	for caller := range c.AllFunctions() {
+		if caller.Blocks == nil {
+			continue
+		}
+		for _, b := range caller.Blocks {
+			for _, in := range b.Instrs {
+				// any other use of the function (a method value, a go/defer) is not followed
+				for _, op := range in.Operands(nil) {
+					if *op == ssa.Value(fn) {
+						if call, ok := in.(*ssa.Call); !ok || call.Common().Value != ssa.Value(fn) {
+							return false
+						}
+					}
+				}
+				call, ok := in.(*ssa.Call)
+				if !ok || call.Common().StaticCallee() != fn {
+					continue
+				}
+				sites++
+				if idx >= len(call.Common().Args) {
+					return false
+				}
+				bits, tracked := fresh.Analyze(caller).FieldsFreshAt(call.Common().Args[idx], call)
+				if !tracked {
+					return false
+				}
+				if field >= 0 && bits&(1<<uint(field)) == 0 {
+					return false
+				}
+			}
+		}
+	}
+	return sites > 0
 }
 
 // checkNoCallerOwnedContainers (R19.5): a method of a configuration type stores no slice or map PARAMETER into a
